@@ -4,6 +4,8 @@ import WireP.Props.C09
 import WireP.Props.C20
 import WireP.Props.C15
 import WireP.Props.C03
+import WireP.Lemmas.SolveLive
+import WireP.Lemmas.SolveExample
 /-! # C01 — successful generation yields a compilable package (aggregate, IR level)
 
 C01 itself is decided by compiling every generated package.  Its Lean part is the IR-level
@@ -12,6 +14,8 @@ corollary of a theorem proved elsewhere, all hypotheses visible, no new assumpti
 
 * `defined_before_use`, `argument_types` — from `WireP.Pipeline.planLast_ok_spec` (C02 on the whole
   modelled pipeline `WireV.planLast`);
+* `every_call_used`, `last_call_returned`, `every_call_used_plan` — no local variable is "declared
+  and not used" (proof in `WireP/Lemmas/SolveLive.lean`, a second machine invariant `Live`);
 * `binders_distinct` — `WireP.C14.nameInjector_distinct`;
 * `signature_declared` — `WireP.C03.needs_sig`;
 * `zero_value_total` — `WireP.C20.zero_kinds_total`, `zero_basic_total`;
@@ -61,6 +65,46 @@ theorem argument_types {order : List Ty} {ds : List SetDef} {d : SetDef} {out : 
   intro p c hpc
   obtain ⟨pt, h1, h2, h3, _, h5, h6⟩ := hs.call_sound p c hpc
   exact ⟨pt, h1, h2, h3, h5, fun j a dd ha hdd => (h6 j a dd ha hdd).2⟩
+
+/-- **Every call's result variable is used** (Go rejects a variable that is "declared and not
+    used").  In the state `solve` accepts (`errs = []`), the variable `given.length + p` of call
+    number `p` is an argument of a *later* call, or it is the variable the requested type is indexed
+    with — the one the injector returns.  Only the standing hypotheses `H` are needed. -/
+theorem every_call_used {pm : PMap} {sm : SMap} {given : List Ty} {out : Ty} (hH : H pm given)
+    (he : (final pm sm given out).errs = []) :
+    ∀ (p : Nat) (c : Call), (final pm sm given out).calls[p]? = some c →
+      (∃ (q : Nat) (c' : Call), p < q ∧ (final pm sm given out).calls[q]? = some c' ∧
+        (given.length + p) ∈ c'.args) ∨
+      look out (final pm sm given out).index = some (some (given.length + p)) :=
+  WireP.Solve.every_call_used hH he
+
+/-- **The last call is the returned one**: if there is any call, the requested type is indexed with
+    the variable of the last call (no later call could use it). -/
+theorem last_call_returned {pm : PMap} {sm : SMap} {given : List Ty} {out : Ty} (hH : H pm given)
+    (he : (final pm sm given out).errs = []) (hc : (final pm sm given out).calls ≠ []) :
+    look out (final pm sm given out).index =
+      some (some (given.length + ((final pm sm given out).calls.length - 1))) :=
+  WireP.Solve.last_call_returned hH he hc
+
+/-- **The same for the whole modelled pipeline, no side hypothesis**: in an accepted plan
+    (`planLast … = .ok calls`, `pm`/`sm` the maps of the last set, `given` the injector's parameters)
+    every call's variable is an argument of a later call or is the returned variable, and the
+    returned variable is the last call's. -/
+theorem every_call_used_plan {order : List Ty} {ds : List SetDef} {d : SetDef} {out : Ty}
+    {calls : List Call} (hbl : BuildLast ds) (hd : ds.getLast? = some d)
+    (horder : OrderCovers order ds) (h : planLast order ds out = .ok calls) :
+    ∃ pm sm, (procSets order ds).getLast? = some (d.id, SetRes.ok pm sm) ∧
+      (∀ (p : Nat) (c : Call), calls[p]? = some c →
+        (∃ (q : Nat) (c' : Call), p < q ∧ calls[q]? = some c' ∧
+          ((d.args.getD []).length + p) ∈ c'.args) ∨
+        look out (final pm sm (d.args.getD []) out).index =
+          some (some ((d.args.getD []).length + p))) ∧
+      (calls ≠ [] → look out (final pm sm (d.args.getD []) out).index =
+        some (some ((d.args.getD []).length + (calls.length - 1)))) := by
+  obtain ⟨pm, sm, hl, hs⟩ := WireP.PipelineProofs.planLast_ok_inv hd h
+  obtain ⟨hH, -, -⟩ := planLast_hyps hbl hd hl (WireP.PipelineProofs.last_covered horder hl)
+  obtain ⟨-, he, -, rfl⟩ := solve_ok hs
+  exact ⟨pm, sm, hl, WireP.Solve.every_call_used hH he, WireP.Solve.last_call_returned hH he⟩
 
 /-- **All binders of a generated injector are pairwise distinct**, none is a keyword, none is in
     file scope (imports, value variables, package scope, universe); one name per parameter, per
@@ -112,6 +156,50 @@ example : ∃ pm sm, (procSets exOrder exDs).getLast? = some (2, SetRes.ok pm sm
       produced [0] exCalls n = some (resolveTy pm 7)) ∧
     (exCalls ≠ [] → (exCalls.getLast?).map (·.out) = some (resolveTy pm 7)) :=
   argument_types (d := exBuild) (by decide) rfl (by decide) exOk
+
+/-- `every_call_used` on the diamond map `pmEx` of `WireP.Solve.Ex` (six calls; `3` is an interface
+    bound to `2`; `2` is shared by `C(3) → 4` and `D(2) → 5`): its hypotheses hold … -/
+example : ∀ (p : Nat) (c : Call), (final WireP.Solve.Ex.pmEx WireP.Solve.Ex.smEx [0] 7).calls[p]? = some c →
+    (∃ (q : Nat) (c' : Call), p < q ∧ (final WireP.Solve.Ex.pmEx WireP.Solve.Ex.smEx [0] 7).calls[q]? = some c' ∧
+      ([0].length + p) ∈ c'.args) ∨
+    look 7 (final WireP.Solve.Ex.pmEx WireP.Solve.Ex.smEx [0] 7).index = some (some ([0].length + p)) :=
+  every_call_used WireP.Solve.Ex.hEx (by decide)
+
+/-- … and these are the witnesses, call by call (`(p, q)`: variable `1 + p` is an argument of call
+    `q > p`): the value `1` feeds `B`; `B`'s result (variable 2) feeds `C` *through the binding*
+    `3 := 2` and `D` directly; `C` and `D` feed `E`; `E` feeds the field; the field's variable (6) is
+    the one returned -/
+example :
+    (final WireP.Solve.Ex.pmEx WireP.Solve.Ex.smEx [0] 7).calls.map (fun c => (c.out, c.args)) =
+      [(1, []), (2, [0, 1]), (4, [2]), (5, [2]), (6, [3, 4]), (7, [5])] ∧
+    (∀ pq ∈ [(0, 1), (1, 2), (1, 3), (2, 4), (3, 4), (4, 5)], pq.1 < pq.2 ∧
+      ((final WireP.Solve.Ex.pmEx WireP.Solve.Ex.smEx [0] 7).calls[pq.2]?).any
+        (fun c' => decide (([0] : List Ty).length + pq.1 ∈ c'.args)) = true) ∧
+    look 7 (final WireP.Solve.Ex.pmEx WireP.Solve.Ex.smEx [0] 7).index = some (some ([0].length + 5)) ∧
+    (final WireP.Solve.Ex.pmEx WireP.Solve.Ex.smEx [0] 7).calls.length - 1 = 5 := by decide
+
+/-- the same, spelled as the disjunct of the theorem that holds for each of the six calls -/
+example :
+    (∃ c', (final WireP.Solve.Ex.pmEx WireP.Solve.Ex.smEx [0] 7).calls[1]? = some c' ∧ 1 + 0 ∈ c'.args) ∧
+    (∃ c', (final WireP.Solve.Ex.pmEx WireP.Solve.Ex.smEx [0] 7).calls[2]? = some c' ∧ 1 + 1 ∈ c'.args) ∧
+    (∃ c', (final WireP.Solve.Ex.pmEx WireP.Solve.Ex.smEx [0] 7).calls[4]? = some c' ∧ 1 + 2 ∈ c'.args) ∧
+    (∃ c', (final WireP.Solve.Ex.pmEx WireP.Solve.Ex.smEx [0] 7).calls[4]? = some c' ∧ 1 + 3 ∈ c'.args) ∧
+    (∃ c', (final WireP.Solve.Ex.pmEx WireP.Solve.Ex.smEx [0] 7).calls[5]? = some c' ∧ 1 + 4 ∈ c'.args) ∧
+    look 7 (final WireP.Solve.Ex.pmEx WireP.Solve.Ex.smEx [0] 7).index = some (some (1 + 5)) := by
+  refine ⟨⟨_, rfl, ?_⟩, ⟨_, rfl, ?_⟩, ⟨_, rfl, ?_⟩, ⟨_, rfl, ?_⟩, ⟨_, rfl, ?_⟩, ?_⟩ <;> decide
+
+/-- the pipeline form on the accepted two-set program (`exCalls`, six calls, binding `3 := 2`, the
+    struct `4` shared by the field `5` and by `C`) -/
+example : ∃ pm sm, (procSets exOrder exDs).getLast? = some (2, SetRes.ok pm sm) ∧
+    (∀ (p : Nat) (c : Call), exCalls[p]? = some c →
+      (∃ (q : Nat) (c' : Call), p < q ∧ exCalls[q]? = some c' ∧ ([0].length + p) ∈ c'.args) ∨
+      look 7 (final pm sm [0] 7).index = some (some ([0].length + p))) ∧
+    (exCalls ≠ [] → look 7 (final pm sm [0] 7).index = some (some ([0].length + (exCalls.length - 1)))) :=
+  every_call_used_plan (d := exBuild) (by decide) rfl (by decide) exOk
+
+example : ∀ pq ∈ [(0, 1), (1, 2), (2, 3), (2, 4), (3, 5), (4, 5)], pq.1 < pq.2 ∧
+    (exCalls[pq.2]?).any (fun c' => decide (([0] : List Ty).length + pq.1 ∈ c'.args)) = true := by
+  decide
 
 /-- the naming example of C14: hypotheses of `binders_distinct` are satisfiable -/
 example : ∃ ig, nameInjector 60 WireP.C14.exEnv WireP.C14.exParams WireP.C14.exSteps = some ig :=
